@@ -223,6 +223,15 @@ def _calibration(ctx, N, cls):
             draws = [x for x in tq.walk_all(sel.term) if x.op == "rng" and x.args[1] == "randint"]
             okb = bool(draws) and all(tq.randint_range(x) == (_c0(0), _dim_term(Dim.of("N"))) for x in draws)
             ctx.ob("R-INDEXSPACE", "the random initial pick is drawn among the samples (randint over the number of samples)", okb, f"selected_idx_ = {repr(sel.term)[:200]}", site, vname)
+    # every switching point in (0, 1] is accepted (1 = always the pruned arm is a documented setting)
+    Iv = ctx.interp(stubs={"VoronoiFPS._update_post_selection": noop})
+    sv = State()
+    ov = ctx.construct(Iv, sv, cls, n_to_select=integer("S"), full_fraction=scalar("ffv", 0, 1, True, False))
+    sv.heap[ov.obj.id]["_axis"] = vconst(0)
+    lov = len(Iv.events)
+    ctx.call_method(Iv, sv, ov, "_init_greedy_search", X, y, integer("S"))
+    rej = [e for e in Iv.events[lov:] if e["kind"] == "raise" and any(tq.has_sym(c_, "ffv") for c_, _p in e["pc"])]
+    ctx.ob("R-PADPAIR", "no switching point in (0, 1] is rejected", not rej, f"raise under {[repr(c_)[:80] for c_, _p in rej[0]['pc'] if tq.has_sym(c_, 'ffv')]}" if rej else "validation passes on the whole interval", site, "0 < full_fraction <= 1")
     # first step as a whole (initialisation + first table update, nothing replaced but the value of the switching
     # point, which becomes a symbol when the first update starts): the table holds the FPS distances to the initial
     # pick, whatever the switching point (explicit or calibrated) and the pick
